@@ -4,6 +4,7 @@ import (
 	"errors"
 	"fmt"
 	"math/rand"
+	"strings"
 	"sync"
 	"sync/atomic"
 	"time"
@@ -60,7 +61,10 @@ func installObserver() {
 
 // ------------------------------------------------------------------ interceptors (C18)
 
-// Interceptor i appends header ("i<i>", <count so far for this offset>) and counts its calls per offset;
+// MarkPrefix starts the header keys the counting interceptors append (longer than any generated header key).
+const MarkPrefix = "verif-i"
+
+// Interceptor i appends header (MarkPrefix+i, <number of headers so far>) and counts its calls per offset;
 // a panicking one panics after counting.
 type CountingInterceptor struct {
 	Index  int
@@ -81,18 +85,11 @@ func (c *CountingInterceptor) OnConsume(m *sarama.ConsumerMessage) {
 	if c.Panics {
 		panic(fmt.Sprintf("interceptor %d panics", c.Index))
 	}
-	m.Headers = append(m.Headers, &sarama.RecordHeader{Key: []byte(fmt.Sprintf("i%d", c.Index)), Value: []byte{byte(len(m.Headers))}})
+	m.Headers = append(m.Headers, &sarama.RecordHeader{Key: []byte(fmt.Sprintf("%s%d", MarkPrefix, c.Index)), Value: []byte{byte(len(m.Headers))}})
 }
 
-func (c *CountingInterceptor) snapshot() map[int64]int {
-	c.mu.Lock()
-	defer c.mu.Unlock()
-	out := map[int64]int{}
-	for k, v := range c.Calls {
-		out[k] = v
-	}
-	return out
-}
+func (c *CountingInterceptor) Lock()   { c.mu.Lock() }
+func (c *CountingInterceptor) Unlock() { c.mu.Unlock() }
 
 // ------------------------------------------------------------------ end-to-end scenario
 
@@ -126,6 +123,7 @@ type E2EResult struct {
 	Steered    bool
 	ExtraOK    bool
 	Fetches    int
+	Resps      [][]int64 // offsets parseResponse must have produced from each data response served for partition 0
 }
 
 type quiet struct{}
@@ -184,6 +182,7 @@ func RunE2E(seed int64, sc E2EScenario) E2EResult {
 	step := 0
 	fetches := 0
 	started := int64(-1)
+	var resps [][]int64
 	responder := &sarama.VerifConsumerFetchResponder{F: func(info sarama.VerifConsumerFetchInfo) []byte {
 		mu.Lock()
 		defer mu.Unlock()
@@ -208,6 +207,19 @@ func RunE2E(seed int64, sc E2EScenario) E2EResult {
 				return []byte{}
 			}
 			sv := sc.Gen.Serve(rng, b.Offset, b.MaxBytes, d, sc.ReadCommitted, info.Version)
+			if b.Partition == 0 && sv.Kind == 0 {
+				var offs []int64
+				for _, u := range l[sv.From:sv.To] {
+					for _, r := range u.Refs() {
+						if r.Offset >= b.Offset && !r.Control && !(sc.ReadCommitted && r.Aborted) {
+							offs = append(offs, r.Offset)
+						}
+					}
+				}
+				if len(offs) > 0 {
+					resps = append(resps, offs)
+				}
+			}
 			if len(sv.Parts) == 0 && len(info.Blocks) == 1 {
 				throttle = sv.Throttle
 				continue
@@ -267,6 +279,10 @@ func RunE2E(seed int64, sc E2EScenario) E2EResult {
 			continue
 		}
 		extras = append(extras, xp)
+		go func(xp sarama.PartitionConsumer) {
+			for range xp.Errors() {
+			}
+		}(xp)
 		wgx.Add(1)
 		go func(xp sarama.PartitionConsumer) {
 			defer wgx.Done()
@@ -281,10 +297,6 @@ func RunE2E(seed int64, sc E2EScenario) E2EResult {
 					break
 				}
 			}
-			go func() {
-				for range xp.Errors() {
-				}
-			}()
 		}(xp)
 	}
 	var errsMu sync.Mutex
@@ -307,6 +319,7 @@ func RunE2E(seed int64, sc E2EScenario) E2EResult {
 	idle := 12 * time.Second
 	want := -1
 	i := 0
+	lastProgress := time.Now()
 loop:
 	for {
 		if want < 0 {
@@ -317,17 +330,16 @@ loop:
 		if want >= 0 && i >= want {
 			break
 		}
-		if sc.Stall[i] {
-			// drain stale expiry events, then wait for the feeder to give up on message i
+		if sc.Stall[i] && want >= 0 {
+			// wait for the feeder to give up on message i (its slow-reader path); on a tree without the
+			// hook this is a plain pause of many MaxProcessingTime
 			select {
 			case off := <-sub.expiry:
 				res.Stalled = append(res.Stalled, off)
 				res.Steered = true
 			case <-time.After(25 * maxProcessing):
-				if atomic.LoadInt32(&HooksSeen) == 1 {
-					// hooks exist but the feeder never blocked on this message (it was not handed over yet): fine
-				}
 			}
+			lastProgress = time.Now()
 		}
 		select {
 		case m, ok := <-pc.Messages():
@@ -337,8 +349,11 @@ loop:
 			}
 			res.Delivered = append(res.Delivered, m)
 			i++
-		case <-time.After(idle):
-			break loop
+			lastProgress = time.Now()
+		case <-time.After(10 * time.Millisecond):
+			if time.Since(lastProgress) > idle {
+				break loop
+			}
 		}
 	}
 	if want >= 0 && i >= want {
@@ -371,6 +386,7 @@ loop:
 	res.Started, res.HasStarted = resolve()
 	mu.Lock()
 	res.Fetches = fetches
+	res.Resps = resps
 	mu.Unlock()
 	return res
 }
@@ -399,7 +415,7 @@ func stripInterceptorHeaders(ms []*sarama.ConsumerMessage, strip bool) []*sarama
 		c := *m
 		c.Headers = nil
 		for _, h := range m.Headers {
-			if len(h.Key) >= 2 && h.Key[0] == 'i' && h.Key[1] >= '0' && h.Key[1] <= '9' {
+			if strings.HasPrefix(string(h.Key), MarkPrefix) {
 				continue
 			}
 			c.Headers = append(c.Headers, h)
